@@ -139,6 +139,40 @@ def build():
          ensures=[E('item', '*r == old(value).val(id) && final(value).val(id) == *final(r)'),
                   E('only_own', '(forall|j: Index| #![trigger final(value).has(j)] final(value).has(j) == old(value).has(j)) && (forall|j: Index| #![trigger final(value).val(j)] j != id ==> final(value).val(j) == old(value).val(j))'),
                   E('events', 'final(value).log() == old(value).log() + old(value).ev_get_mut(id)', 'C12')])
+    # ---- the NON-lending `&mut Storage` member (`(&mut storage).join()`, the commonest mutable join) and the raw-sharing wrapper it
+    # uses. N3: SharedGetMutOnly holds `&'a mut S` instead of `&'a S`, `get_mut(this: &Self)` takes `&mut Self`, the inner
+    # `shared_get_mut` is the kind's `get_mut` (same contract, see units kinds/veckinds/flagged); the returned reference is tied to
+    # the borrow of the wrapper instead of 'a (lifetimes have no run-time meaning; aliasing of the raw pointers is not modelled)
+    SG = ['mod shared_get_mut_only']
+    u.struct(SM, SG + ['struct SharedGetMutOnly'], rules=[('N3', r"\(&'a S, PhantomData<T>\)", "(&'a mut S, PhantomData<T>)")])
+    SGI = "impl<'a, T, S> SharedGetMutOnly<'a, T, S>"
+    u.fn(SM, SG + [SGI, 'fn new'], ret='r', props='C06 C07', key='SharedGetMutOnly::new',
+         ensures=[E('same', '*r.0 == *old(storage) && *final(r.0) == *final(storage)')])
+    u.fn(SM, SG + [SGI, 'fn get_mut'], ret='r', props='C06 C07 C12 C13', key='SharedGetMutOnly::get_mut',
+         impl_header="impl<'a, T, S: UnprotectedStorage<T>> SharedGetMutOnly<'a, T, S>",
+         rules=[('N3', r"this: &Self,", "this: &'next mut Self,"), ('N3', r'unsafe fn get_mut\(', "unsafe fn get_mut<'next>("),
+                ('N8', r"<S as UnprotectedStorage<T>>::AccessMut<'a>", "&'next mut T"), ('N3', r'where\s+S: SharedGetMutStorage<T>,', ''),
+                ('N3', r'this\.0\.shared_get_mut\(id\)', 'this.0.get_mut(id)')],
+         requires=[E('present', 'old(this).0.has(id)')],
+         ensures=[E('item', '*r == old(this).0.val(id) && final(this).0.val(id) == *final(r)'),
+                  E('only_own', '(forall|j: Index| #![trigger final(this).0.has(j)] final(this).0.has(j) == old(this).0.has(j)) && (forall|j: Index| #![trigger final(this).0.val(j)] j != id ==> final(this).0.val(j) == old(this).0.val(j))'),
+                  E('events', 'final(this).0.log() == old(this).0.log() + old(this).0.ev_get_mut(id)', 'C12 C13')])
+    for (trait, t, vparam) in (('Join', 'j', r'value: &mut Self::Value'), ('ParJoin', 'pj', r'value: &Self::Value')):
+        MH = "impl<'a, 'e, T, D> %s for &'a mut Storage<'e, T, D>" % trait
+        pp = 'C06 C12 C13' if trait == 'Join' else 'C07'
+        u.fn(SM, [MH, 'fn open'], ret='r', props=pp, free='storage_mut_%s_open' % t, key='%s_storage_mut::open' % t,
+             rules=[('N12', r'fn open\(self\)', "fn open<'a, 'e, 'd, T: Component>(self_: &'a mut Storage<'e, T, &'d mut MaskedStorage<T>>)"),
+                    ('N12', r'Self::Mask', "&'a BitSet"), ('N12', r'Self::Value', "SharedGetMutOnly<'a, T, T::Storage>"), ('N12', r'\bself\b', 'self_')],
+             requires=[E('wf', 'old(self_).data.wf()')],
+             ensures=[E('mask', 'r.0@ == old(self_).data.mask@'), E('same_storage', '*r.1.0 == old(self_).data.inner'),
+                      E('pre', 'forall|id: Index| #![trigger r.1.0.has(id)] r.0@.contains(id) ==> r.1.0.has(id)')])
+        u.fn(SM, [MH, 'fn get'], ret='r', props=pp, free='storage_mut_%s_get' % t, key='%s_storage_mut::get' % t,
+             rules=[('N12', r"fn get\(", "fn get<'a, 'next, T: Component>("), ('N3', vparam, "value: &'next mut SharedGetMutOnly<'a, T, T::Storage>"),
+                    ('N8', r"-> Self::Type", "-> &'next mut T")],
+             requires=[E('inmask', 'old(value).0.has(id)')],
+             ensures=[E('item', '*r == old(value).0.val(id) && final(value).0.val(id) == *final(r)'),
+                      E('only_own', '(forall|j: Index| #![trigger final(value).0.has(j)] final(value).0.has(j) == old(value).0.has(j)) && (forall|j: Index| #![trigger final(value).0.val(j)] j != id ==> final(value).0.val(j) == old(value).0.val(j))'),
+                      E('events', 'final(value).0.log() == old(value).0.log() + old(value).0.ev_get_mut(id)', 'C12' if trait == 'Join' else 'C07')])
     # `Storage::entries()` and its lending member (every index; the item is the entry for that index): free functions, as above
     EN = 'src/storage/entry.rs'
     u.struct(EN, ['struct Entries'], rules=[('N8', r"<'a, 'b: 'a, T: 'a, D: 'a>", "<'a, 'b: 'a, 'd: 'a, T: Component>"), ('N8', r"Storage<'b, T, D>", "Storage<'b, T, &'d mut MaskedStorage<T>>")])
@@ -235,6 +269,29 @@ def build():
                 labels = dict(open=['mask', 'pre'], get=['item', 'keeps'], is_unconstrained=[])[f]
                 u.fn(X, ['mod join', 'impl<%s> %s for %s' % (gen, trait, tup), 'fn ' + f], props='C06', group=gname, key='%s::%s' % (gname, f), rules=n17,
                      hint_obligations=[E('%s%s.%s' % (tl, f, l), 'inherited postcondition of %s::%s (%s) for the %d-tuple' % (trait, f, l, n), 'C06') for l in labels])
+    # ---- resource-handle forwarding members (immutable_resource_join!): `&'a Fetch<'b, T>` where `&'a T` is a member — this is the
+    # path every `(&entities, ..).join()` takes (`Entities<'a>` = `Read<'a, EntitiesRes>`). Fetch is modelled as `&'b T` (prelude), so
+    # `self.deref()` is `&**self` (N10). Read / ReadExpect are further expansions of the SAME macro body and are not emitted a second
+    # time (with the alias model they would be the same type).
+    FWD = """    type Type = <&'a T as JOINTRAIT>::Type;
+    type Value = <&'a T as JOINTRAIT>::Value;
+    type Mask = <&'a T as JOINTRAIT>::Mask;
+    // pure forwarding: everything is the wrapped member's
+    spec fn jmask(&self) -> Set<u32> { <&'a T as JOINTRAIT>::jmask(&&***self) }
+    spec fn open_pre(&self) -> bool { <&'a T as JOINTRAIT>::open_pre(&&***self) }
+    spec fn get_pre(v: &Self::Value, id: Index) -> bool { <&'a T as JOINTRAIT>::get_pre(v, id) }
+    spec fn get_post(ov: &Self::Value, id: Index, r: &Self::Type, nv: &Self::Value) -> bool { <&'a T as JOINTRAIT>::get_post(ov, id, r, nv) }
+"""
+    for trait in ('Join', 'LendJoin'):
+        t = 'j' if trait == 'Join' else 'lj'
+        gname = '%s_fetch' % t
+        u.groups[gname] = dict(header="unsafe impl<'a, 'b, T> %s for &'a Fetch<'b, T> where &'a T: %s," % (trait, trait), pre=FWD.replace('JOINTRAIT', trait), private=False)
+        tl = 'trait.' + ('lend_' if trait == 'LendJoin' else '')
+        for f in ('open', 'get', 'is_unconstrained'):
+            labels = dict(open=['mask', 'pre'], get=['item', 'keeps'], is_unconstrained=[])[f]
+            u.fn(X, ['mod join', "impl<'a, 'b, T> %s for &'a Fetch<'b, T>" % trait, 'fn ' + f], props='C06', group=gname, key='%s::%s' % (gname, f),
+                 rules=[('N10', r'self\.deref\(\)', '(&**self)'), ('N8', r"<Self as LendJoinඞType<'next>>::T", 'Self::Type')],
+                 hint_obligations=[E('%s%s.%s' % (tl, f, l), 'inherited postcondition of %s::%s (%s) for the forwarding member &Fetch<T>' % (trait, f, l), 'C06') for l in labels])
     u.groups['bitand_4'] = dict(header='impl<A, B, C, D> BitAnd for (A, B, C, D) where A: BitSetLike, B: BitSetLike, C: BitSetLike, D: BitSetLike,', private=False,
                                 pre='    type Value = BitSetAnd<<<Self as Split>::Left as BitAnd>::Value, <<Self as Split>::Right as BitAnd>::Value>;\n    spec fn and_view(&self) -> Set<u32> { self.0.bview().intersect(self.1.bview().intersect(self.2.bview().intersect(self.3.bview()))) }\n')
     u.fn(X, ['mod join', 'mod bit_and', 'impl<A, B, C, D> BitAnd for (A, B, C, D)', 'fn and'], props='C06', group='bitand_4', key='BitAnd(A,B,C,D)::and',
